@@ -355,6 +355,10 @@ def plan_C10(q, seed):
 
 def plan_C11(q, seed):
     jobs = [gen_job("panic", "PANIC", 150000 if q else 3000000, time_limit=30 if q else 500)]
+    # the same on shapes where some stored handles were dropped without unadopt first (stale records are
+    # allowed by the documentation; a panic during the teardown of an object named by a stale record must
+    # still not lead to a second destruction; destructions explained by the known C13 finding are reported there)
+    jobs += [gen_job("panic", "PANIC", 60000 if q else 1200000, time_limit=20 if q else 300, extra=["--allow-stale", "--elide-base"], label="panic-PANIC-stale-e1")]
     jobs += [e2(gen_job("panic", "PANIC", 20000 if q else 400000, time_limit=20 if q else 300))]
     jobs += [e3(gen_job("panic", "PANIC", 100000, lo=1 << 20), 40 if q else 600)]
     return {
